@@ -1,5 +1,6 @@
 import Secp.Proofs.PaddBridge
-import Secp.Proofs.HashToScalar
+import Secp.Proofs.XmdLength
+import Secp.Proofs.WideReduceP
 /-!
 # `HashToGroup` / `EncodeToGroup` are RFC 9380 `hash_to_curve` / `encode_to_curve` (C08)
 -/
